@@ -231,15 +231,28 @@ PROPS = {
                      "FBV.C05.crlf_none_iff", "FBV.C05.crlf_some", "FBV.C05.crlf_prefixDet", "FBV.C05.crlf_minimal", "FBV.C05.crlf_ok",
                      "FBV.C05.append_stable"],
         "jobs": (lambda tier: sync_jobs("df")(tier) + sync_jobs("big")(tier)),
-        "tie": "T2 exact output equality of deframe_line/deframe_crlf/deframe_null with the model",
+        # translation tie: Rust function -> (proof module, theorems audited, source path); tools/rs2lean.py regenerates
+        # lean/FBV/Gen/Deframers.lean from /repo on every run and the module re-proves translated = model
+        "translate": {
+            "deframe_line": ("FBV.Props.C05genLine", ["FBV.C05gen.gen_line_eq", "FBV.C05gen.gen_line_spec"], "fixed-buffer/src/deframe_line.rs"),
+            "deframe_crlf": ("FBV.Props.C05genCrlf", ["FBV.C05gen.gen_crlf_eq", "FBV.C05gen.gen_crlf_spec"], "fixed-buffer/src/deframe_crlf.rs"),
+            "deframe_null": ("FBV.Props.C05genNull", ["FBV.C05gen.gen_null_eq", "FBV.C05gen.gen_null_spec"], "fixed-buffer/src/deframe_null.rs"),
+        },
+        "technique": "Lean 4 theorems over a model that is BOTH re-translated from the Rust source on every run (tools/rs2lean.py, translated = hand model proved for all inputs) and tied by a differential correspondence check",
+        "trusted_extra": ["tools/rs2lean.py (Rust-subset parser and translator) and the semantics given to its target combinators in lean/FBV/Model/RsSem.lean (slice indexing, usize +/- per profile, short-circuit &&/||, for-range with early return)"],
+        "tie": "TRANSLATION (the three functions are re-translated from the source and proved equal to the model on every run) + T2 exact output equality of deframe_line/deframe_crlf/deframe_null with the model",
         "rule": ("every string of length <=6 (quick) / <=8 (thorough) over {CR,LF,NUL,'a',0xff}, every 1- and 2-byte string over all 256 "
                  "values, seeded random strings <=300 bytes over all 256 values with delimiters sprinkled in, each x 3 deframers; "
                  "distinct = distinct (deframer, input); non-trivial = the model finds a complete frame"),
         "exhaustive": True,
         "level_text": ("Kernel-checked theorems for ALL byte strings: None iff no terminator; the reported block ends with the first terminator, "
                        "lies inside the data, payload = everything before it (deframe_line: minus one CR); the answer is determined by the block "
-                       "(prefix-determined), no shorter prefix is complete; the models are the same index loops as the Rust and are tied to the "
-                       "three functions by exact output equality on an exhaustive small scope + random strings."),
+                       "(prefix-determined), no shorter prefix is complete. The tie is double: (1) on every run tools/rs2lean.py re-translates the three Rust "
+                       "functions from /repo's working tree into Lean (checked slice indexing, usize +/- under both overflow-check settings, short-circuit "
+                       "operators, for-range with early return) and the kernel re-checks gen_*_eq: the translated function never panics, never errs and "
+                       "equals the model for EVERY slice, so the C05 theorems are about what the source says now (gen_*_spec); a source outside the "
+                       "translator's subset is recorded as 'translation unavailable' and then (2) alone remains: exact output equality with the compiled "
+                       "functions on an exhaustive small scope + random and source-dictionary strings."),
     },
     "C01": {
         "module": "FBV.Props.C01b",
